@@ -96,7 +96,7 @@ def check(prop, tier, seed):
     rejects = sc.validate(run, traces, module="WireTrace", mods=["WireTrace.tla"])
     # identifiers and numbering on the messages a session sends in answer to Logons it refuses or cannot read, and under boundary
     # configurations (SessionTrace's history monitor "ids" and its C05-tagged comparisons)
-    cfg_scns = sc.gen_config() + sc.gen_prelogon(rnd, 40 if quick else 600)
+    cfg_scns = sc.gen_config() + sc.gen_prelogon(rnd, 40 if quick else 600) + [x for x in sc.gen_systematic() if "minutes" in x["id"]]
     rejects += [r for r in sc.validate(run, sc.run_driver(run, binp, cfg_scns, "sp-config")) if r[0] == "C05"]
     run.traces += len(cfg_scns)
     # the whole library end to end over TCP: the byte stream each side really wrote, under bursts and transport back-pressure
